@@ -924,6 +924,7 @@ package cdi
 //@   ensures[C01] forall(q, string, cnt[q] == 1, c.devices[q] == first[q] && DevObjWF(c.devices[q]) &&
 //@                       c.devices[q].spec.priority == maxP[q])
 //@   ensures[C13] ErrInv(c.errors)
+//@   ensures[C01] SpecsInv(c.specs)
 //@   ensures[C13] fresh(c.errors) && fresh(c.devices) && fresh(c.specs)
 //@   ensures[C13] (err == nil) == forall(k, string, true, !has(c.errors, k))
 //@   loop 1 invariant ScanInvRest(devices, conflicts, #seen)
@@ -1018,6 +1019,10 @@ package cdi
 //@ pred ErrInv(m map[string][]error) = m != nil && forall(k, string, has(m, k), len(m[k]) >= 1 && own(m[k]) <= allocNow() &&
 //@        forall(i, 0 <= i && i < len(m[k]), m[k][i] != nil))
 
+// the per-vendor Spec lists have no nil entry
+//@ pred SpecsInv(m map[string][]*Spec) = m != nil && forall(v, string, has(m, v), own(m[v]) <= allocNow() &&
+//@        forall(i, 0 <= i && i < len(m[v]), m[v][i] != nil))
+
 //@ func (c *Cache) refresh$1(err error, paths []string)
 //@   requires err != nil
 //@   invariant ErrInv(specErrors)
@@ -1039,6 +1044,7 @@ package cdi
 //@   requires implies(spec != nil, SpecObjWF(spec) && spec.priority == priority && own(spec.devices) > scanMark)
 //@   invariant ScanInv(devices, conflicts)
 //@   invariant ErrInv(specErrors) && specs != nil
+//@   invariant SpecsInv(specs)
 //@   ghostwrites maxP, cnt, first
 //@   modifies *specs, allelems([]*Spec), *devices, *conflicts, *specErrors, allelems([]error)
 //@   ensures[C13] r == nil
@@ -1048,6 +1054,7 @@ package cdi
 //@   ghost at loop 1 body end: maxP = ite(priority > maxP[qualified], store(maxP, qualified, priority), maxP)
 //@   loop 1 invariant ScanInv(devices, conflicts)
 //@   loop 1 invariant ErrInv(specErrors) && specs != nil
+//@   loop 1 invariant SpecsInv(specs)
 //@   loop 1 invariant SpecObjWF(spec) && spec.priority == priority && own(spec.devices) > scanMark
 
 // What scanSpecDirs promises its callback type: a valid Spec created for this call, or the error.
